@@ -77,7 +77,13 @@ CHECKS = {
          "c07",
          "Every node position and MMR size up to the bound (65 536 quick / 1 048 576 thorough nodes), every (size,pos) of family_branch, every leaf count up to 2 048 / 16 384 (push, root, peaks, validate, read-only views), every leaf of every MMR up to 96 / 320 leaves x every single corruption of element, position and path, all executed on the real code and compared with a forest built by definition with its own blake2b hashing. Exhaustive within these bounds; nothing sampled.",
          "Trusts blake2-rfc; positions >= 2^63 outside the domain; proof.mmr_size not mutated (excluded by the property).",
-         "DESIGN.md §4 C07"), "C19": ("exploration",
+         "DESIGN.md §4 C07"), "C18": ("model_checking",
+         "explicit-state exploration of batch operation sequences on the real LMDB Store against a nested-transaction map model; exhaustive growth sequences forcing map resizes; crash-point enumeration around commit",
+         "c18",
+         "Every sequence up to depth 7 (quick) / 9 (thorough) over {batch, child (two nesting levels), put x6 over two key spaces, delete x3, commit, drop, reopen} runs on a real Store; after every operation every key is read inside the innermost open level (get_ser, exists, iter) and through the Store (outside view) and compared with a stack-of-overlays model: writes visible inside and in children, invisible outside until the outermost commit, all at once then, dropped levels leave no trace, a child's writes take effect only if every enclosing level commits, durable across reopen. Growth: every well-formed sequence of {48 KiB write, pair write, open iterator, drain iterator, reopen} on a store pre-filled to 65 % of its 1 MiB map (one or two automatic resizes): no operation fails, every committed value reads back byte-exact, iterators see their snapshot. Crash: a kill at every crash point around the commit of a flat and a nested two-key-space batch leaves all or nothing, all once commit returned.",
+         "Single-threaded: interleavings with concurrent readers/iterators/writers and a resize in flight (the scheduler part of DESIGN C18) are not claimed by this check. Batches stay within the 10 % headroom the resize rule guarantees; a read view held by the writing thread itself is outside the property.",
+         "DESIGN.md §4 C18"),
+ "C19": ("exploration",
          "exhaustive enumeration of environment decisions: message sequences x protocol versions x every split point of the TCP byte stream (FIONREAD-synchronised fragments) read by the real Codec; per-type length limits; handshake script",
          "c19",
          "The real Codec reads from a loopback TcpStream; the writer delivers the next fragment only when the reader has consumed the previous one (no sleeps). Alphabet of 718 items (all message types with real content, Headers with 0..65 items, attachments of 0..100 000 bytes, every unknown type byte x three body lengths) x versions {1,2,3,1000}: every single item and the stated groups of pairs (and triples in thorough) at every single split point, and every pair of split points for streams <= 96 bytes. Received messages must equal the sent sequence (header batches of <= 32 with correct 'remaining', attachment chunks, Unknown skipped without desync). Every type x boundary and over-limit announced lengths, wrong magic, header counts inconsistent with length: refused with 0 body bytes consumed and no allocation of the announced size. Handshake: negotiated version = min for 8 remote versions, genesis mismatch, self-connect, wrong first message.",
